@@ -12,7 +12,8 @@ import random
 
 from .. import worlds
 from ..canon import outcome_of, canon
-from ..seams import Stepper, Ambient, UserFuncs
+from ..seams import (Stepper, Ambient, UserFuncs, SimFS, install_fs,
+                     uninstall_fs)
 
 ID = 'C04'
 BUDGET = {
@@ -180,7 +181,12 @@ def gen_case(seed, tier='quick'):
     knobs = {'n_evaluators': n_ev,
              'max_empty': rng.choice([100, 100, 100, 1, 2, 5]),
              'fail_on': rng.choice([1, 2, 3]) if faulty else None,
-             'fault_class': 'faulty' if faulty else 'fault_free'}
+             'fault_class': 'faulty' if faulty else 'fault_free',
+             # how the model under test came to be: the statement speaks of
+             # "a model", whatever its provenance
+             'provenance': rng.choice(
+                 ['compiled'] * 5 + ['extracted'] * 2 + ['restored'] * 2 +
+                 ['restored+extracted'])}
     return {'property': ID, 'seed': seed, 'knobs': knobs, 'world': world,
             'ops': ops}
 
@@ -243,6 +249,29 @@ class History:
         detail['op'] = seq
         self.viol = {'tag': tag, 'detail': detail}
 
+    def provenance(self, model, how):
+        """The same model contents reached another way: restored from a
+        persisted file and / or extracted with every cell and name in focus."""
+        from xlcalculator import Model, ModelCompiler
+        if how == 'compiled':
+            return model
+        self.bump(f'probe:model_{how}')
+        try:
+            if 'restored' in how:
+                model.persist_to_json_file('/simfs/c04.json')
+                model = Model()
+                model.construct_from_json_file('/simfs/c04.json',
+                                               build_code=True)
+            if 'extracted' in how:
+                focus = list(self.world['order']) + list(self.world['names'])
+                model = ModelCompiler.extract(model, focus)
+        except Exception as e:
+            # persistence / extraction themselves are C12 / C13 business
+            self.bump('provenance_failed')
+            self.log.append(['provenance', how, type(e).__name__])
+            return worlds.world_model(self.world, stale=True)
+        return model
+
     def run(self):
         from xlcalculator import Evaluator, ast_nodes
         case, world = self.case, self.world
@@ -251,6 +280,9 @@ class History:
         with Ambient(case['seed']) as amb:
             ast_nodes.MAX_EMPTY = knobs.get('max_empty', 100)
             model = worlds.world_model(world, stale=True)
+            model = self.provenance(model, knobs.get('provenance', 'compiled'))
+            if self.viol is not None:
+                return self
             uf = UserFuncs(knobs.get('fail_on'))
             evs = [Evaluator(model, uf.namespace())
                    for _ in range(knobs.get('n_evaluators', 1))]
@@ -418,6 +450,15 @@ class History:
 
 
 def run_case(case):
+    fs = SimFS()
+    install_fs(fs)
+    try:
+        return _run_case(case)
+    finally:
+        uninstall_fs()
+
+
+def _run_case(case):
     h = History(case).run()
     viol = h.viol
     stats, log = h.stats, h.log
@@ -529,6 +570,12 @@ def reducers(case):
         c = copy.deepcopy(case)
         c['knobs']['fail_on'] = None
         yield c
+    if k.get('provenance', 'compiled') != 'compiled':
+        for how in ('compiled', 'extracted', 'restored'):
+            if how != k['provenance']:
+                c = copy.deepcopy(case)
+                c['knobs']['provenance'] = how
+                yield c
     for a, v in w['cells'].items():
         if w['level'].get(a, 0) == 0 and v not in (0, 1):
             c = copy.deepcopy(case)
